@@ -29,6 +29,14 @@ CHECKS = {
               'with T^(depth+1)(empty) computed by iterating the reference evaluator: exactly for self-recursive, flat and iterative unfolding, '
               'as lower/upper bounds (T^(depth+1) and the least fixpoint) for vertical unfolding of a larger cover.'),
         note='trusted: reference iteration (vf/ref/recursion.py); heavy shapes limited in depth for non-iterative unfolding (exponential SQL size)'),
+    'C04': dict(
+        category='exploration', design_ref='DESIGN.md 4/C04',
+        technique='runtime monitor: programs with functor applications on the real pipeline + SQLite vs (1) a reference evaluator with substitution semantics and (2) the same program with the substitution done by hand at IR level',
+        text=('Generated layered programs with 1-4 functor applications (several arguments, swaps, functor of functor result, equal and '
+              'different bindings, constant arguments, arguments reached through intermediates and diamonds); every made predicate and every '
+              'original predicate is executed and compared with the substitution semantics; made predicates are additionally compared with '
+              'an explicitly cloned program. The functor cache is exercised (CallFunctor counter, equal bindings).'),
+        note='trusted: reference evaluator; composition of substitutions as in DESIGN 4.21 rule 12'),
     'C07': dict(
         category='exploration', design_ref='DESIGN.md 4/C07',
         technique='runtime monitor: metamorphic comparison of a program and its permuted / renamed variants on the real pipeline + SQLite, admissible differences taken from the reference evaluator',
